@@ -1464,8 +1464,9 @@ def _inherit_copy(attrib, child, attr_name):
 def _inherit_multiply(attrib, child, attr_name):
     if attr_name not in attrib and attr_name not in child.attrib:
         return
-    value = float(attrib.get(attr_name, 1.0))
-    value *= float(child.attrib.get(attr_name, 1.0))
+    # opacity values outside [0, 1] are clamped, each one before it is combined
+    value = _clamp(float(attrib.get(attr_name, 1.0)))
+    value *= _clamp(float(child.attrib.get(attr_name, 1.0)))
     child.attrib[attr_name] = ntos(value)
 
 
